@@ -108,6 +108,9 @@ enum BOp {
     Change(u16),
     /// delete the key
     Del(u16),
+    /// take back what `Change` did (drop the trailing "!" / the fresh member; delete a key that
+    /// holds exactly "!"): Change … Undo brings a key back to an earlier value (A -> B -> A)
+    Undo(u16),
 }
 
 #[derive(Clone, Debug, Serialize, Deserialize)]
@@ -261,6 +264,7 @@ fn b_action() -> BoxedStrategy<BAction> {
             2 => any::<u16>().prop_map(BOp::Rewrite),
             4 => any::<u16>().prop_map(BOp::Change),
             1 => any::<u16>().prop_map(BOp::Del),
+            2 => any::<u16>().prop_map(BOp::Undo),
         ],
     )
         .prop_map(|(at, op)| BAction { at, op })
@@ -283,16 +287,37 @@ fn script(conn_level: bool) -> BoxedStrategy<Script> {
         prop_oneof![5 => Just(true), 1 => Just(false)],
         proptest::collection::vec(b_action(), 0..5),
         prop_oneof![2 => Just(None), 1 => any::<u16>().prop_map(Some)],
+        // hot-key mode (1 in 4): every WATCH and every dynamic B operation aims at ONE key, so that
+        // repeated WATCHes of a key that B changes and changes back between them are common
+        prop_oneof![3 => Just(None), 1 => any::<u16>().prop_map(Some)],
     )
-        .prop_map(|(shards, seed_types, setup, watches, body, exec, b, tail)| Script {
-            shards,
-            seed_types,
-            setup,
-            watches,
-            body,
-            exec,
-            b,
-            tail,
+        .prop_map(|(shards, seed_types, setup, mut watches, body, exec, mut b, tail, hot)| {
+            if let Some(h) = hot {
+                for w in watches.iter_mut() {
+                    if let WatchStep::Watch(ks) = w {
+                        for k in ks.iter_mut() {
+                            *k = h;
+                        }
+                        ks.truncate(1);
+                    }
+                }
+                for a in b.iter_mut() {
+                    match &mut a.op {
+                        BOp::Touch(k) | BOp::Rewrite(k) | BOp::Change(k) | BOp::Del(k) | BOp::Undo(k) => *k = h,
+                        BOp::Write(_) => {}
+                    }
+                }
+            }
+            Script {
+                shards,
+                seed_types,
+                setup,
+                watches,
+                body,
+                exec,
+                b,
+                tail,
+            }
         })
         .boxed()
 }
@@ -455,6 +480,34 @@ fn resolve_b(op: &BOp, d: &Dump) -> Vec<Argv> {
                 Some("set") => vec![vec![b("SADD"), key, fresh]],
                 Some("hash") => vec![vec![b("HSET"), key, fresh, b("1")]],
                 _ => vec![vec![b("ZADD"), key, b("99"), fresh]],
+            }
+        }
+        BOp::Undo(k) => {
+            let key = key_of(*k);
+            match d.get(&key) {
+                None => vec![vec![b("EXISTS"), key]],
+                Some(kd) => match kd.ty.as_str() {
+                    "string" => {
+                        let cur = kd.value.as_bulk().unwrap_or(b"").to_vec();
+                        if cur == b"!" {
+                            vec![vec![b("DEL"), key]]
+                        } else if cur.last() == Some(&b'!') {
+                            vec![vec![b("SET"), key, cur[..cur.len() - 1].to_vec()]]
+                        } else {
+                            vec![vec![b("EXISTS"), key]]
+                        }
+                    }
+                    "list" => {
+                        if first_elems(&kd.value).last().map(|e| e.as_slice() == b"!").unwrap_or(false) {
+                            vec![vec![b("RPOP"), key]]
+                        } else {
+                            vec![vec![b("EXISTS"), key]]
+                        }
+                    }
+                    "set" => vec![vec![b("SREM"), key, fresh]],
+                    "hash" => vec![vec![b("HDEL"), key, fresh]],
+                    _ => vec![vec![b("ZREM"), key, fresh]],
+                },
             }
         }
         BOp::Touch(k) => {
@@ -758,6 +811,17 @@ fn judge_exec(m: &mut Model, reply: &Reply, now: &Dump, executor_tier: bool) -> 
         }
         if m.watched.iter().any(|w| w.at_watch.is_none()) {
             m.label("watch_missing_key");
+        }
+        // a key named by two WATCHes whose snapshots differ, first snapshot = value at EXEC (A -> B -> A)
+        let aba = m.watched.iter().enumerate().any(|(i, w)| {
+            w.at_watch.as_ref() == now.get(&w.key)
+                && m.watched[i + 1..].iter().any(|l| l.key == w.key && l.at_watch != w.at_watch)
+        });
+        if aba {
+            m.label("rewatch_changed_and_back");
+        }
+        if m.watched.iter().enumerate().any(|(i, w)| m.watched[i + 1..].iter().any(|l| l.key == w.key)) {
+            m.label("rewatch_same_key");
         }
     }
     if m.flagged {
@@ -1400,6 +1464,28 @@ fn main() {
                     at: 0x4000,
                     op: BOp::Change(key_idx(0)),
                 }],
+                tail: None,
+            };
+            s.strict_eval(|ctx| check_exec_script(&sc, ctx)).err()
+        },
+    );
+    // KF-C05-04 (fixed by c06eb81): k changed after its first WATCH, WATCHed again, changed back
+    s.probe(
+        "KF-C05-04",
+        json!({"tier": "executor", "script": ["WATCH {t}a", "(other client) ZADD {t}a 99 zz-fresh-member", "WATCH {t}a", "(other client) ZREM {t}a zz-fresh-member", "MULTI", "GET k0", "EXEC"]}),
+        || {
+            let sc = Script {
+                shards: 1,
+                seed_types: true,
+                setup: vec![],
+                watches: vec![WatchStep::Watch(vec![0x8000]), WatchStep::Watch(vec![0x8000])],
+                // two body commands: B's positions are fractions of A's step count
+                body: vec![BodyItem::Cmd(argv(&["GET", "k0"])), BodyItem::Cmd(argv(&["GET", "k0"]))],
+                exec: true,
+                b: vec![
+                    BAction { at: 21846, op: BOp::Touch(0x8000) },
+                    BAction { at: 10923, op: BOp::Change(0x8000) },
+                ],
                 tail: None,
             };
             s.strict_eval(|ctx| check_exec_script(&sc, ctx)).err()
